@@ -87,6 +87,16 @@ func App(sortOf Sort, f string, args ...T) T {
 			}
 		}
 	}
+	if (f == "m_get" || f == "m_has") && len(args) == 2 && strings.HasPrefix(args[0].S, "(m_upd ") {
+		// reads are pushed through map updates as well
+		if as := SplitArgs(args[0].S); len(as) == 3 {
+			m0, k, v := T{S: as[0], Sort: V}, T{S: as[1], Sort: V}, T{S: as[2], Sort: V}
+			if f == "m_has" {
+				return Or(Eq(args[1], k), App(Bool, "m_has", m0, args[1]))
+			}
+			return Ite(Eq(args[1], k), v, App(sortOf, "m_get", m0, args[1]))
+		}
+	}
 	return app(sortOf, f, args...)
 }
 
